@@ -4,11 +4,12 @@
 
     FULL STATEMENT (the property):
         forall x : list item, parse (collapse x) = Ok (map norm x)
-    for every nested structure of byte strings (any bytes), None and integers.  It is proved below for
+    for every nested structure of byte strings (any bytes), None and integers.  It is FALSE of the
+    current code (finding F16, [parse_collapse_roundtrip_refuted]).  Proved below: the round trip for
     every list, of any length, of None / integers / byte strings that are sent quoted (no CR, no LF, at
-    most 1000 bytes -- any other bytes, including quotes, backslashes, braces, parentheses, NIL-like
-    text); nested lists and literal strings are covered by evaluation only (Example nested_examples and
-    the correspondence run), see design.d/C42.md. *)
+    most 1000 bytes) and contain no backslash -- any other bytes, including double quotes, braces,
+    parentheses, brackets, NIL-like text.  Nested lists and literal strings are covered by evaluation
+    only (Example nested_examples and the correspondence run), see design.d/C42.md. *)
 From Coq Require Import List NArith ZArith Bool.
 From C42 Require Import Model Proofs.
 Import ListNotations.
@@ -19,11 +20,20 @@ Theorem parse_collapse_roundtrip_partial : forall l : list item,
 Proof. exact flat_roundtrip. Qed.
 Print Assumptions parse_collapse_roundtrip_partial.
 
-(** The statement finding F16 violates on the pinned code: EVERY byte string (ending in a backslash,
-    containing backslash-quote sequences, anything) survives _quote followed by splitQuoted. *)
-Theorem quoted_string_roundtrip : forall s : list N, split_quoted (quote s) = Ok [IStr s].
+(** F16: a string ending in a backslash raises MismatchedQuoting; backslash-quote comes back with the
+    backslash doubled; already _quote followed by splitQuoted fails on a single backslash. *)
+Theorem parse_collapse_roundtrip_refuted :
+  parse (collapse [IStr [97; 92]]) = Err EQuoting
+  /\ parse (collapse [IStr [120; 92; 34; 121]]) = Ok [IStr [120; 92; 92; 34; 121]]
+  /\ split_quoted (quote [92]) = Err EQuoting.
+Proof. exact roundtrip_refuted. Qed.
+Print Assumptions parse_collapse_roundtrip_refuted.
+
+(** under the exact guard (no backslash) every byte string survives _quote followed by splitQuoted *)
+Theorem quoted_string_roundtrip_partial : forall s : list N,
+  nobs s -> split_quoted (quote s) = Ok [IStr s].
 Proof. exact quote_roundtrip. Qed.
-Print Assumptions quoted_string_roundtrip.
+Print Assumptions quoted_string_roundtrip_partial.
 
 (** the serialisation of a flat list is never mis-framed by the scanner: it yields only character
     elements whose concatenation is the input (no literal, no nesting, no error), so the whole parse is
